@@ -98,7 +98,10 @@ class Program:
             return how, lambda: gen.make_array(sr, rng, self.sym, idx, charge=charge, fermionic=self.ferm, kind=self.kind, values=vals, label=okw.get("oddpos"))
         if how == "random":
             seed = rng.randint(0, 10**6)
-            return how, lambda: cls.random(idx, charge=charge, seed=seed, dtype=dt, **extra, **okw)
+            ropts = {}
+            if rng.random() < 0.4:
+                ropts = {"dist": rng.choice(["normal", "uniform"]), "scale": rng.choice([1.0, 2.0, 0.5]), "loc": rng.choice([0.0, 1.0, -2.0])}
+            return how, lambda: cls.random(idx, charge=charge, seed=seed, dtype=dt, **ropts, **extra, **okw)
         if how == "from_fill_fn":
             return how, lambda: cls.from_fill_fn(lambda shape: vals(shape), idx, charge, **extra, **okw)
         secs = gen.all_sectors(self.sym, idx, charge)
